@@ -11,10 +11,9 @@ PROP = {'assumptions': ['tokio paused-clock quiescence barrier: sleep(1ns)/timeo
           {'comp_num': 133, 'component': 'robs_list', 'quick': 1500, 'thorough': 60000},
           {'comp_num': 134, 'component': 'robs_map', 'quick': 1500, 'thorough': 60000},
           {'comp_num': 135, 'component': 'robs_set', 'quick': 1500, 'thorough': 60000}],
- 'level_note': 'Vector/deque: the theorem excludes the class `incremental subscription taken after done() on a non-empty collection` '
-               '(finding F11: the pinned mirror task starts with done=true and stops after the first initial Push); '
-               'C13_*_known_class_refuted proves the divergence on the model and the class is replayed on the real code under its own '
-               'signature. Elements are N with Leibniz equality; usize treated as unbounded; mirrors are local (no connection), remote '
+ 'level_note': 'Vector/deque: proved for all inputs incl. incremental subscription after done() (former finding F11, repaired in '
+               '/repo; the two former witnesses are in corpus/C13 and replayed first, the class is ~8% of generated cases). '
+               'Elements are N with Leibniz equality; usize treated as unbounded; mirrors are local (no connection), remote '
                'transport of the same event stream is the subject of C01/C04. Lagging subscribers and max_size overflow belong to C14 '
                '(max_size overflow is nevertheless compared between model and code). Hash map/set: Trusted: Coq kernel (+vm_compute), '
                'translator, extraction and mrun glue (cross-checked in-kernel on a sample), harness. Keys/values are u64 with structural '
